@@ -108,7 +108,7 @@ Definition int_value (o : obj) : Z :=
 Inductive lint_err := LPctOptions | LBOnText | LCombine | LBadPiece.
 Inductive acc_err :=
 | ENoSpecifiers | ENeedMapping | EMissingKeys | ETooFew | ETooMany
-| EInteger | ENumeric | ECRange | ECLen | ECType | EBytesOnly | EStar | EPct.
+| EInteger | ENumeric | ECRange | ECLen | ECType | EBytesOnly | EStar | EPct | EUnhandled.
 
 (* range(256) in ConversionSpecifier.accept_no_mvv: applied to text and bytes
    patterns alike (known finding C17-c-range-str) *)
@@ -130,7 +130,49 @@ Definition type_accept (is_bytes : bool) (t : N) (o : obj) : list acc_err :=
   else if (t =? ch_b) || (is_bytes && (t =? ch_s)) then
     (if is_bytes_obj o then [] else [EBytesOnly])
   else if t =? ch_s then []
-  else [EPct].
+  else if t =? ch_pct then [EPct]
+  else [EUnhandled].                 (* `assert False`: unreachable for regex-produced types *)
+
+(* What accept_no_mvv asks about an argument Value: the assignability tests it
+   performs and, for a KnownValue, the tests on the wrapped object.  The function
+   generated from the source (Gen/FormatAccept.v) is written against this view,
+   so that it applies to literal and to typed arguments alike. *)
+Record argview := mk_view {
+  av_known : bool;        (* isinstance(arg, KnownValue) *)
+  av_integral : bool;     (* Integral.is_assignable(arg) : SupportsIndex *)
+  av_numeric : bool;      (* Numeric.is_assignable(arg)  : float | SupportsIndex *)
+  av_int : bool;          (* TypedValue(int).is_assignable(arg) *)
+  av_bytes : bool;        (* TypedValue(bytes).is_assignable(arg) *)
+  av_str : bool;          (* TypedValue(str).is_assignable(arg) *)
+  av_val : Z;             (* arg.val when it is an int *)
+  av_strbytes : bool;     (* isinstance(arg.val, (str, bytes)) *)
+  av_len : nat            (* len(arg.val) *)
+}.
+
+Definition view_of_obj (o : obj) : argview :=
+  mk_view true (int_like o) (numeric o) (int_like o) (is_bytes_obj o)
+          (match o with OStr _ => true | _ => false end)
+          (int_value o)
+          (match o with OStr _ | OBytes _ => true | _ => false end)
+          (match o with OStr s | OBytes s => length s | _ => 0%nat end).
+
+(* accept_no_mvv written against the view (hand-written mirror of the source;
+   Proofs/FormatGen.v proves the translated function equal to it for every view) *)
+Definition type_accept_v (is_bytes : bool) (t : N) (v : argview) : list acc_err :=
+  if mem t integer_conversion_types then (if av_integral v then [] else [EInteger])
+  else if mem t numeric_conversion_types then (if av_numeric v then [] else [ENumeric])
+  else if (t =? ch_a) || (t =? ch_r) then []
+  else if t =? ch_c then
+    if av_int v then
+      (if av_known v && negb ((0 <=? av_val v)%Z && (av_val v <? c_limit)%Z) then [ECRange] else [])
+    else if (is_bytes && av_bytes v) || (negb is_bytes && av_str v) then
+      (if av_known v && av_strbytes v && negb (Nat.eqb (av_len v) 1) then [ECLen] else [])
+    else [ECType]
+  else if (t =? ch_b) || (is_bytes && (t =? ch_s)) then
+    (if av_bytes v then [] else [EBytesOnly])
+  else if t =? ch_s then []
+  else if t =? ch_pct then [EPct]
+  else [EUnhandled].
 
 Definition spec_accept (is_bytes : bool) (cs : cspec) (o : obj) : list acc_err :=
   type_accept is_bytes (c_type cs) o.
